@@ -490,7 +490,7 @@ struct PrngWorld : World {
         f.mem = bytes_of(std::max<size_t>(f.st.size, 64), 0xF1A5 ^ salt); // "whatever rubbish was in the region"
         void *mem = aalloc(64, sizeof(ascon_random_state_t) + 64);
         memset(mem, dirt, sizeof(ascon_random_state_t) + 64);
-        c.ram = (ascon_random_state_t *)((uint8_t *)mem + (dirt & 8 ? 8 : 0));
+        c.ram = (ascon_random_state_t *)((uint8_t *)mem + ((dirt & 8) || dirt == 0 ? 8 : 0));
         int idx = 0;
         for (const Op &op : plan.ops) {
             run.cur_op = idx++;
@@ -532,7 +532,9 @@ struct PrngWorld : World {
         std::vector<std::pair<int, uint64_t>> loads;
         pass(plan, run, true, 0, ~0ull, -1, -1, &loads, e1, &feeds, &used, &draws, twin ? &r1 : nullptr, 0xD7);
         // Oracle 1: deterministic function of tape and feeds (second execution: other RAM address and dirt)
-        pass(plan, run, false, 0, ~0ull, -1, -1, nullptr, e2, nullptr, nullptr, nullptr, nullptr, 0x2B);
+        // (what the memory held before ascon_random_init is not an input: zero-filled memory in two plans of three, so a
+        // field that init forgets to set differs between the two executions - 0xD7D7.. against 0)
+        pass(plan, run, false, 0, ~0ull, -1, -1, nullptr, e2, nullptr, nullptr, nullptr, nullptr, plan.digest() % 3 == 0 ? 0x2B : 0x00);
         bool same = e1.size() == e2.size();
         for (size_t i = 0; same && i < e1.size(); ++i) same = e1[i].out == e2[i].out;
         if (!same) run.violation("C15", "deterministic_in_tape_and_feeds", "replay", "two executions with the same entropy tape and feeds produced different output");
